@@ -103,4 +103,20 @@ def isExt : TsItem → Bool
   | .schemaExt _ | .typeExt _ => true
   | _ => false
 
+/-- position of an item (its `position` field) -/
+def itemPos : TsItem → Pos
+  | .schemaDef s => s.pos
+  | .schemaExt s => s.pos
+  | .typeDef t => t.pos
+  | .typeExt t => t.pos
+  | .directiveDef d => d.pos
+
+/-- `doc'` lists, for every kind and name, the same extensions in the same relative order as `doc` -/
+def KeepsExtOrder (doc' doc : TsDoc) : Prop :=
+  schemaExts doc' = schemaExts doc ∧ ∀ k n, typeExts k n doc' = typeExts k n doc
+
+/-- the extension `e` of kind `k` has no definition of kind `k` with its name in `doc` -/
+def isOrphan (k : TypeKind) (doc : TsDoc) (e : TypeDef) : Bool :=
+  decide (e.name ∉ (typeDefs k doc).map (·.name))
+
 end NitroVerif.ExtMerge
